@@ -32,6 +32,24 @@ RULE_REALMS = [(None, 70), ("", 8), ("  ", 7), ("other", 8), ("multi\nline", 7)]
 # request attributes an `if` condition can ask about (CEL texts in harness/main/pipeline.go, c01CondExpr)
 COND_ON = ["hdr", "q", "rawq", "path"]
 
+# --- middlewares in front of the service handler that touch the response before the rule is looked up:
+# `serve.<service>.cors` (None = not configured; only the proxy service has the middleware). `origins` = allowed_origins
+# (exact, lower case; [] or "*" = every origin), `methods` = allowed_methods (None = rs/cors' default GET, POST, HEAD),
+# `creds` = allow_credentials.
+CORS_CFGS = [
+    (None, 62),
+    ({"origins": ["https://app.c01.test"], "methods": None, "creds": False}, 12),
+    ({"origins": [], "methods": None, "creds": False}, 8),
+    ({"origins": ["*"], "methods": ["GET", "POST", "DELETE"], "creds": True}, 6),
+    ({"origins": ["https://app.c01.test", "https://other.c01.test"], "methods": ["POST"], "creds": True}, 6),
+    ({"origins": ["https://other.c01.test"], "methods": None, "creds": True}, 6),
+]
+# the request's Origin header (None = absent)
+ORIGIN_VALUES = [(None, 40), ("https://app.c01.test", 35), ("https://evil.c01.test", 13), ("", 6),
+                 ("https://APP.c01.test", 6)]
+# share of CORS preflight requests (OPTIONS + Access-Control-Request-Method: GET); every other request is a GET
+P_PREFLIGHT = 0.07
+
 
 def path_of(hit):
     return "/c01/some/resource" if hit else "/elsewhere/resource"
@@ -242,6 +260,9 @@ def gen_case(rng):
     if rng.random() < 0.45:
         cfg["verbose"] = True
     cfg["log"] = wchoice(rng, [("trace", 35), ("debug", 15), ("info", 20), ("warn", 10), ("disabled", 20)])
+    cors = wchoice(rng, CORS_CFGS)
+    if cors is not None:
+        cfg["cors"] = copy.deepcopy(cors)
     return derive({
         "fam": "pipeline",
         "cfg": cfg,
@@ -251,7 +272,8 @@ def gen_case(rng):
         "upstream": rng.choice([200, 200, 201, 204, 404, 500]),
         "style": rng.randrange(4),
         "accept": None if rng.random() < 0.3 else rng.choice(ACCEPTS),
-        "req": {"hdr": wchoice(rng, HDR_VALUES), "q": wchoice(rng, Q_VALUES)},
+        "req": {"hdr": wchoice(rng, HDR_VALUES), "q": wchoice(rng, Q_VALUES), "origin": wchoice(rng, ORIGIN_VALUES),
+                "preflight": rng.random() < P_PREFLIGHT},
     })
 
 
@@ -299,6 +321,12 @@ SMALL_REQS = [(None, None), ("https://login.c01.test/in", None), ("", ""), ("  "
               (None, "https://a.c01.test/x\nX-Injected: 1"), (None, " \n \n")]
 
 
+SMALL_CORS = [None, CORS_CFGS[1][0], None, CORS_CFGS[2][0], CORS_CFGS[3][0], None, CORS_CFGS[4][0]]
+SMALL_ORIGINS = [None, "https://app.c01.test", "https://app.c01.test", "https://evil.c01.test", None,
+                 "https://app.c01.test", "", None, "https://app.c01.test", "https://evil.c01.test", None,
+                 "https://app.c01.test", "https://APP.c01.test"]
+
+
 def small_scope_cases():
     cases = []
     auth_lists = [[a] for a in AUTH_CLASSES] + [[a, b] for a in AUTH_CLASSES for b in AUTH_CLASSES]
@@ -319,9 +347,16 @@ def small_scope_cases():
         if k % 2:
             cfg["verbose"] = True
         hdr, q = SMALL_REQS[(k // 110) % len(SMALL_REQS)]
+        # CORS configuration, Origin header and preflight requests cycle with periods 7, 13 and 17 (coprime to the
+        # periods above and to each other): every outcome class of a step meets every CORS configuration
+        cors = SMALL_CORS[k % len(SMALL_CORS)]
+        if cors is not None:
+            cfg["cors"] = copy.deepcopy(cors)
         cases.append(derive({"fam": "pipeline", "cfg": cfg, "rule": doc, "default": None,
                              "hit": True, "upstream": 200, "style": k % 4,
-                             "accept": ACCEPTS[(k // 2) % len(ACCEPTS)], "req": {"hdr": hdr, "q": q}}))
+                             "accept": ACCEPTS[(k // 2) % len(ACCEPTS)],
+                             "req": {"hdr": hdr, "q": q, "origin": SMALL_ORIGINS[k % len(SMALL_ORIGINS)],
+                                     "preflight": k % 17 == 16}}))
     return cases
 
 
